@@ -330,6 +330,8 @@ func (prop) Child(b core.Batch, o *core.Obs) {
 	if to == 0 {
 		to = b.N
 	}
+	hl := newHealth(srv, s)
+	o.EmitX("healthref", map[string]interface{}{"deterministic_reply_bytes": hl.L, "dialogue_steps": len(hl.Steps)})
 	for k := b.From; k < to; k++ {
 		lab.WaitUnpaused()
 		sc := mkScenario(s, b.Seed, p.Offset+k, p.ConcOnly)
@@ -339,6 +341,13 @@ func (prop) Child(b core.Batch, o *core.Obs) {
 		o.Begin(k)
 		rec := runScenario(srv, s, sc, k, b.Verbose)
 		o.EmitX("scn", rec)
+		if k%8 == 7 || k == to-1 {
+			if hr, ok := hl.check(srv, s, k); !ok {
+				o.EmitX("health", hr)
+			} else {
+				o.EmitX("healthok", hr)
+			}
+		}
 		o.End(k)
 		if k%40 == 39 {
 			// idle memory samples (no client input in flight)
